@@ -259,3 +259,12 @@ def fragment_size_redefinitions(ctx, fn):
             continue
         out.append(("undecided", d, f"`{ast.unparse(d)}` redefines the fragment size in a form that is not recognised as lowering it"))
     return out
+
+
+
+def witness_instance(ci, **attrs):
+    """A witness instance that carries its class: a private helper method the rule does not hook (e.g. one extracted by a
+    refactor) is folded through the MRO instead of stopping the fold."""
+    from ..miniinterp import Obj
+
+    return Obj(_ci=ci, **attrs)
